@@ -11,7 +11,7 @@ META = {
     'rule': ('one evaluation = one frame of a written file whose decoded INDEX-MIN/INDEX-MAX/SPACING/DIRECTION are compared '
              'with exact statistics of the index rows actually written (python integers / float64); signature = (index dtype, '
              'sequence pattern, window?, user-supplied subset, write number); all but plain increasing float64 are non-trivial'),
-    'required_obs': {'quick': ['c13-indexed', 'c13-no-index-type', 'c13-user-supplied', 'c13-single-row', 'c13-unsigned-decreasing',
+    'required_obs': {'quick': ['c13-indexed', 'c13-no-index-type', 'c13-user-supplied', 'c13-assigned-between-writes', 'c13-single-row', 'c13-unsigned-decreasing',
                                'c13-diff-beyond-dtype', 'c13-uniform', 'c13-nonuniform', 'c13-near-uniform', 'c13-nan',
                                'c13-direction-present', 'c13-window', 'c13-rewrite', 'c13-failed-first-write']
                      + ['c13-dtype-' + d for d in gen.DTYPES]},
@@ -217,6 +217,20 @@ def run_case(case):
             if w0[0] != 'ok':
                 bump('c13-failed-first-write')
         for wn in range(1, nwr + 1):
+            if wn > 1 and r.random() < 0.5:
+                # between two writes the user supplies index attributes explicitly: from now on they are written unchanged
+                for kw in r.sample(['index_min', 'index_max', 'spacing'], r.choice([1, 2, 3])):
+                    op = {'op': 'assign', 'target': 3, 'target_op': 'frame', 'kw': kw, 'part': 'value',
+                          'value': r.choice([-5, 0, 7.5, 100, 0.0]), 'via': r.choice([None, 'set_attributes'])}
+                    sp['ops'].append(op)
+                    try:
+                        S.run_op(b, len(sp['ops']) - 1, op, 'inline')
+                        b.outcomes.append(('ok',))
+                        if kw not in sup:
+                            sup.append(kw)
+                        bump('c13-assigned-between-writes')
+                    except Exception as e:  # noqa
+                        b.outcomes.append(('exc', type(e).__name__, str(e)[:100]))
             spw = copy.deepcopy(sp)
             if wn > 1 and n > 1:
                 a0 = r.randrange(0, n)
